@@ -138,6 +138,33 @@ def r3(ctx):
     the output phase of list_search_results evaluated on its scenario table (rules/lsr.py)"""
     import lsr
     lsr.output_phase(ctx)
+    # the groups are formed once, from all buffered rows of all roots: partition_output_buffer has one call site, outside the
+    # loop over the roots, and the aggregation buffer is never emptied, drained or replaced while the query runs
+    hir = ctx.anchor_hir(LSR)
+    cs = [c for c in walk_exprs(hir) if (c["k"] == "MCall" and c["m"] == "partition_output_buffer") or (c["k"] == "Call" and str(c.get("callee", "")).endswith("partition_output_buffer"))]
+    in_roots = [c for c in cs if any("roots" in render(it["iter"]) and any(y is c for y in walk_exprs(it["body"])) for it in find_iterations(hir))]
+    ok = len(cs) == 1 and not in_roots
+    ctx.obligation(ok)
+    if not ok:
+        ctx.violation("groups/partition-once", ctx.where(LSR), "the buffered rows must be partitioned once, after all roots were searched (%d call sites, %d inside the loop over the roots): "
+                      "partitions formed per root and merged lose the rows of a key seen under an earlier root" % (len(cs), len(in_roots)))
+    shrink = []
+    for fname in sorted(ctx.prog.fns):
+        if "{closure" in fname:
+            continue
+        fh = ctx.prog.hir(fname)
+        if fh is None:
+            continue
+        for c in walk_exprs(fh):
+            if c["k"] == "MCall" and c["m"] in ("clear", "drain", "truncate", "pop", "remove", "swap_remove", "retain", "split_off", "take") and "raw_output_buffer" in render(c["recv"]):
+                shrink.append((fname, c))
+            if c["k"] == "Assign" and c["l"]["k"] == "Field" and c["l"]["name"] == "raw_output_buffer" and not fname.endswith("::new"):
+                shrink.append((fname, c))
+            if c["k"] == "Call" and str(c.get("callee", "")).endswith(("mem::take", "mem::replace", "mem::swap")) and "raw_output_buffer" in render(c):
+                shrink.append((fname, c))
+    ctx.obligation(not shrink)
+    for fname, c in shrink:
+        ctx.violation("groups/buffer-shrinks/%s" % short(fname, 1), ctx.where(fname, c), "`%s` removes rows from the aggregation buffer while the query runs: groups and aggregates are functions of every accepted row" % render(c)[:80])
 
 
 RULES = [
